@@ -113,6 +113,19 @@ def design_check(module, cfg, name, workers=8, timeout=1800, xmx="8g"):
             "wall_s": round(r["wall"], 1)}
 
 
+def proof_check(path, timeout=1800):
+    """tlapm on a proof module.  An unproved obligation is a defect of the proof / specification (tool error)."""
+    t0 = time.time()
+    rc, out = run(["tlapm", "--threads", "6", "--cleanfp", os.path.basename(path)], timeout, cwd=os.path.dirname(path))
+    m = re.search(r"All (\d+) obligations? proved", out)
+    log("proof %s: %s, %.1fs" % (os.path.basename(path), m.group(0) if m else "FAILED", time.time() - t0))
+    if not m:
+        sys.stderr.write(out[-3000:])
+        raise ToolError("proof %s: unproved obligations" % path)
+    return {"module": os.path.basename(path), "obligations": int(m.group(1)), "discharged": int(m.group(1)),
+            "wall_s": round(time.time() - t0, 1)}
+
+
 MISMATCH_RE = re.compile(r'<<"MISMATCH", (\d+)')
 CONSUMED_RE = re.compile(r'<<"CONSUMED", (\d+)>>')
 
